@@ -157,6 +157,113 @@ def run_arith(ctx):
     ctx.sample({"rule": "arith", "sites": n, "safe_calls": wr})
 
 
+def _conjuncts(c):
+    c = H.strip(c)
+    if c is not None and c.get("k") == "bin" and c["op"] == "And":
+        return _conjuncts(c["l"]) + _conjuncts(c["r"])
+    return [c] if c is not None else []
+
+
+def _rel_facts(conds):
+    """facts (a <= b) as pairs of normalised operand texts/keys: ('le', A, B) meaning A <= B"""
+    out = []
+    for c in conds:
+        if c.get("k") != "bin" or c["op"] not in ("Le", "Lt", "Ge", "Gt"):
+            continue
+        a, b = _opkey(c["l"]), _opkey(c["r"])
+        if c["op"] in ("Ge", "Gt"):
+            a, b = b, a
+        out.append((a, b))
+    return out
+
+
+def _opkey(e):
+    e = H.strip(e)
+    k = H.local_key(e)
+    if k:
+        return k
+    if e.get("k") == "mcall" and e["method"] == "len":
+        return "len(%s)" % (_opkey(e["recv"]))
+    if e.get("k") == "lit":
+        return "lit:%s" % e["v"]["v"]
+    return H.show(e)
+
+
+def run_bounds(ctx):
+    """R-BOUNDS: every range slice of a Vec/slice in the evaluator module is guarded, with the *same bindings* it slices by,
+    by start <= end and end <= len(container) (or end is bound to min(_, len(container)))."""
+    F = ctx.facts()
+    n = 0
+    counts = {}
+    for p in F.hir_paths():
+        if not p.startswith(MODULE):
+            continue
+        h = F.hir(p)
+        lets = {}
+        for s in H.lets(h["body"]):
+            if s["pat"]["k"] == "bind" and s["init"] is not None:
+                lets[H.bind_key(s["pat"])] = s["init"]
+
+        def visit(e, facts):
+            nonlocal n
+            if e is None:
+                return
+            k = e.get("k")
+            if k == "if":
+                visit(e["cond"], facts)
+                visit(e["then"], facts + _conjuncts(e["cond"]))
+                visit(e["else"], facts)
+                return
+            if k == "mcall" and e["method"] in ("then", "then_some") and e["recv_ty"] == "bool":
+                visit(e["recv"], facts)
+                for a in e["args"]:
+                    visit(a, facts + _conjuncts(e["recv"]))
+                return
+            if k == "index" and e["ity"].startswith("core::ops::range::Range") and ("alloc::vec::Vec<" in e["ety"] or e["ety"].startswith("&[") or e["ety"].startswith("[")):
+                n += 1
+                rng = H.strip(e["i"])
+                ends = {f["n"]: f["e"] for f in rng["fields"]} if rng.get("k") == "struct" else {}
+                cont = _opkey(e["e"])
+                rel = _rel_facts(facts)
+                base = "%s:%s" % (p.split("::{closure")[0].rsplit("::", 1)[1], H.show(e)[:40])
+                counts[base] = counts.get(base, 0) + 1
+                key = base if counts[base] == 1 else "%s#%d" % (base, counts[base])
+                problems = []
+                S = _opkey(ends["start"]) if "start" in ends else None
+                E = _opkey(ends["end"]) if "end" in ends else None
+                lenc = "len(%s)" % cont
+
+                def bounded(x):
+                    if x is None:
+                        return True
+                    if (x, lenc) in rel:
+                        return True
+                    init = lets.get(x)
+                    if init is not None:
+                        i = H.strip(init)
+                        if i.get("k") == "mcall" and i["method"] == "min" and any(_opkey(a) == lenc for a in [i["recv"]] + i["args"]):
+                            return True
+                    if ".min(" in x and lenc.split("#")[0].replace("len(", "").rstrip(")") + ".len()" in x:
+                        return True  # inline `e.min(container.len())`
+                    return x.startswith("lit:0")
+                if S is not None and E is not None and (S, E) not in rel:
+                    problems.append("no `start <= end` test on the bindings actually used (%s, %s); known: %s" % (S.split("#")[0], E.split("#")[0], [(a.split("#")[0], b.split("#")[0]) for a, b in rel]))
+                if E is not None and not bounded(E):
+                    problems.append("end `%s` is not bounded by %s" % (E.split("#")[0], lenc.split("#")[0]))
+                if E is None and S is not None and not bounded(S):
+                    problems.append("start `%s` is not bounded by %s" % (S.split("#")[0], lenc.split("#")[0]))
+                if problems:
+                    ctx.violation("bounds", key, "range slice `%s` can panic: %s" % (H.show(e)[:60], "; ".join(problems)), site=e["sp"])
+                else:
+                    ctx.ok("bounds", key, site=e["sp"])
+            for c in H.children(e):
+                visit(c, facts)
+
+        visit(h["body"], [])
+    ctx.floor("bounds", "range slices of vectors in the evaluator module", n, 3)
+
+
 def run(ctx):
     ctx.guard("rec", lambda: run_rec(ctx))
     ctx.guard("arith", lambda: run_arith(ctx))
+    ctx.guard("bounds", lambda: run_bounds(ctx))
